@@ -115,15 +115,45 @@ theorem hidden_sizes_match_groups (g : Geo) (hl : g.Launch) (hc : g.CountsFit) (
 def hidden_block_count_full : Prop :=
   ∀ g : Geo, g.Launch → ∃ h, hiddenOf g = .ok h ∧ h.bc = (g.nx, g.ny, g.nz)
 
-/-- **hidden_block_count_full_refuted.** Global size 4294967295 × 1 × 1, local size 64 × 1 × 1:
-    `(g + l − 1) / l` wraps in `uint32`, `hidden_block_count_x = 0`, the grid has 67108864
-    work-groups along x (replayed: `C08.hidden.geometry.wrap`, finding C08-hidden-block-count-wraps).
-    `hidden_args_equal_geometry` is the partial statement (`Geo.CountsFit`). -/
-theorem hidden_block_count_full_refuted : ¬ hidden_block_count_full := by
+/-- the same statement about `newCDNA3HiddenArgs` before the repair -/
+def hidden_block_count_before_fix_full : Prop :=
+  ∀ g : Geo, g.Launch → ∃ h, hiddenOfOld g = .ok h ∧ h.bc = (g.nx, g.ny, g.nz)
+
+/-- **hidden_block_count_full holds (repaired code).** `newCDNA3HiddenArgs` computes the block counts
+    in 64 bits: for every typed launch geometry (`uint32` global sizes, `uint16` local sizes ≥ 1, no
+    empty axis) they are the numbers of work-groups per axis the grid builder produces — also for a
+    global size > 2^32 − local size. -/
+theorem hidden_block_count_full_all : hidden_block_count_full := by
+  intro g hl
+  obtain ⟨hv, hgx, hgy, hgz, hwx, hwy, hwz⟩ := hl
+  have e1 : C02.wgCount g.gx g.wx = g.nx := by
+    rw [wgCount_typed' _ _ hgx hv.wx hwx, nwgI_eq _ _ hv.gx hv.wx]; rfl
+  have e2 : C02.wgCount g.gy g.wy = g.ny := by
+    rw [wgCount_typed' _ _ hgy hv.wy hwy, nwgI_eq _ _ hv.gy hv.wy]; rfl
+  have e3 : C02.wgCount g.gz g.wz = g.nz := by
+    rw [wgCount_typed' _ _ hgz hv.wz hwz, nwgI_eq _ _ hv.gz hv.wz]; rfl
+  have hvx := hv.wx
+  have hvy := hv.wy
+  have hvz := hv.wz
+  refine ⟨{ bc := (C02.wgCount g.gx g.wx, C02.wgCount g.gy g.wy, C02.wgCount g.gz g.wz),
+            gs := (g.wx, g.wy, g.wz),
+            rem := (g.gx % g.wx % 65536, g.gy % g.wy % 65536, g.gz % g.wz % 65536),
+            off := (0, 0, 0),
+            dims := if g.gz > 1 then 3 else if g.gy > 1 then 2 else 1 }, ?_, ?_⟩
+  · unfold hiddenOf
+    rw [if_neg (by omega)]
+  · simp only [e1, e2, e3]
+
+example : (hiddenOf ⟨4294967295, 1, 1, 64, 1, 1⟩).toOption.map (·.bc) = some (67108864, 1, 1) := by decide
+
+/-- **hidden_block_count_before_fix_refuted.** Global size 4294967295 × 1 × 1, local size 64 × 1 × 1:
+    `(g + l − 1) / l` wrapped in `uint32`, `hidden_block_count_x = 0`, the grid has 67108864
+    work-groups along x (former finding C08-hidden-block-count-wraps). -/
+theorem hidden_block_count_before_fix_refuted : ¬ hidden_block_count_before_fix_full := by
   intro h
   obtain ⟨hh, e, hbc⟩ := h ⟨4294967295, 1, 1, 64, 1, 1⟩
     ⟨⟨by decide, by decide, by decide, by decide, by decide, by decide⟩, by decide, by decide, by decide, by decide, by decide, by decide⟩
-  have e' : hiddenOf ⟨4294967295, 1, 1, 64, 1, 1⟩ = .ok ⟨(0, 1, 1), (64, 1, 1), (63, 0, 0), (0, 0, 0), 1⟩ := by rfl
+  have e' : hiddenOfOld ⟨4294967295, 1, 1, 64, 1, 1⟩ = .ok ⟨(0, 1, 1), (64, 1, 1), (63, 0, 0), (0, 0, 0), 1⟩ := by rfl
   rw [e'] at e
   cases e
   exact absurd (congrArg Prod.fst hbc) (by decide)
